@@ -145,8 +145,33 @@ class SimParallel:
         # a thread-based pool: the tasks of a batch share one interpreter (no pickling, shared module state) and interleave
         self.shared = kw.get("prefer") == "threads" or kw.get("backend") == "threading" or kw.get("require") == "sharedmem"
 
+    # joblib.Parallel is also a context manager: a managed pool keeps its worker threads/processes alive between calls, until
+    # __exit__ (or until a task raises, when joblib aborts and terminates the backend itself)
+    def _pools(self):
+        pools = getattr(self.sim, "open_pools", None)
+        if pools is None:
+            pools = self.sim.open_pools = []
+        return pools
+
+    def __enter__(self):
+        n = self.n_jobs
+        if n is not None and n not in (0, 1):
+            self._pools().append(self)
+            self.sim.stats["managed-pool-opened"] += 1
+        return self
+
+    def __exit__(self, *exc):
+        pools = self._pools()
+        if self in pools:
+            pools.remove(self)
+        return False
+
     def __call__(self, iterable):
-        order, results = self._execute(iterable)
+        try:
+            order, results = self._execute(iterable)
+        except BaseException:
+            self.__exit__(None, None, None)
+            raise
         if self.return_as == "generator_unordered":
             return (results[i] for i in order)          # completion order, as joblib does
         if self.return_as == "generator":
